@@ -189,6 +189,45 @@ theorem event_count_trace_witness :
     (rectify .old f).evcount = some 1 ∧ (rectify .fixed f).evcount = some 2 := by
   decide +kernel
 
+/-- **every access pattern, in every order.** Whatever sequence of accesses (plain, slices,
+`np.asarray(ds[f], dtype=…)`, copies; `conv` = the conversion the caller asked for) is made on a
+feature object, each access returns the stored data converted for that access alone — earlier
+accesses never matter. -/
+theorem access_order_irrelevant (data : List Tok) (convs : List (Tok → Tok)) :
+    accessRun .clean data none convs = convs.map (fun c => data.map c) :=
+  accessRun_clean data convs none (Or.inl rfl)
+
+/-- the variant in which the first read converts is wrong: a lossy first access (`/2*2`) poisons a
+later plain access -/
+theorem access_convert_first_witness :
+    accessRun .convertFirst [5, 7] none [fun t => t / 2 * 2, id] = [[4, 6], [4, 6]] ∧
+    accessRun .clean [5, 7] none [fun t => t / 2 * 2, id] = [[4, 6], [5, 7]] := by
+  decide
+
+/-- **software-version chain.** Once a chain `c` has been stored (it is branded on storing),
+any further history of metadata writes that carry no software version (partial sections, with or
+without a `setup` section) and writer exits leaves exactly `c` + the dclab brand — every earlier
+entry kept, the brand appended at most once. -/
+theorem version_chain_kept (dclab : String) (c : List String) (ops : List VerOp)
+    (h : ∀ op ∈ ops, op = .store [] ∨ op = .close) :
+    verRun dclab (brand dclab c) ops = brand dclab c :=
+  verRun_partial dclab ops c h
+
+/-- the brand is appended at most once, and an explicit version replaces the stored chain -/
+theorem version_brand_once (dclab : String) (c given : List String) (hg : given ≠ []) :
+    brand dclab (brand dclab c) = brand dclab c ∧
+    verStep dclab c (.store given) = brand dclab given ∧
+    (brand dclab c = c ∨ brand dclab c = c ++ [dclab]) := by
+  refine ⟨brand_idem dclab c, ?_, ?_⟩
+  · cases given with
+    | nil => exact absurd rfl hg
+    | cons a t => rfl
+  · unfold brand
+    by_cases h : c.getLast? = some dclab <;> simp [h]
+
+example : verRun "dclab 1" [] [.store ["ShapeIn 2"], .close, .store [], .store ["ShapeIn 2", "dclab 0"],
+    .close] = ["ShapeIn 2", "dclab 0", "dclab 1"] := by decide +kernel
+
 /-- non-vacuity: 13 + 12 image events with chunk size 10 (two appends, both with full chunks and
 a remainder, the second starting inside a chunk), contours from two writer objects, index,
 a log that outgrows its width -/
